@@ -196,6 +196,35 @@ Theorem C12_source_hypcluster_one_cluster_is_skeleton :
   option_map hc_reshape (hypcluster grad split split_pair copt_init copt_apply sopt (fun _ => O) [(p, os)] clients).
 Proof. exact (@gen_hypcluster_is_skeleton). Qed.
 
+(* constructors: init, the wiring of the parts, and the FedProx objective.  The translated proximal penalty
+   0.5 * mu * |server_params - params|^2 expands exactly as  penalty(p) + < mu (p - s), h > + 0.5 mu |h|^2,
+   i.e. its gradient is the term prox_grad adds (that jax.grad returns the gradient stays trusted) *)
+Theorem C12_source_inits_and_wiring : forall {S OS : Type} (sinit : list Q -> OS) (binit : list Q -> S) p,
+  (Gen_fed_prox.init sinit p = (p, sinit p) /\ Gen_apfl.init sinit p = (p, sinit p) /\
+   Gen_mime.init binit p = (p, binit p) /\ Gen_mime_lite.init binit p = (p, binit p)) /\
+  (Gen_fed_prox.fed_prox_wiring = true /\ Gen_apfl.apfl_wiring = true /\ Gen_hyp_cluster.hyp_cluster_wiring = true /\
+   Gen_mime.mime_one_grad_fn_for_both_passes = true /\ Gen_mime_lite.mimelite_one_grad_fn_for_both_passes = true).
+Proof. exact (fun S OS sinit binit p => conj (gen_inits sinit binit p) gen_wiring). Qed.
+
+Theorem C12_fedprox_penalty_gradient : forall mu p s h, length s = length p -> length h = length p ->
+  Gen_fed_prox.proximal_penalty mu (vadd p h) s ==
+  Gen_fed_prox.proximal_penalty mu p s + vdot (vscale mu (vsub p s)) h + (1 # 2) * mu * sumsq h.
+Proof. exact prox_penalty_expansion. Qed.
+
+(* the guards of the reductions are satisfiable (non-trivial instances) *)
+Example C12_mime_guard_satisfiable :
+  let cl : list (mclient (K := key) (B := list example)) :=
+    [(mkClient 4%Z 2%Z [0] [[([1; 0], 1); ([0; 1], 1)]], [([([1; 0], 1); ([0; 1], 1)], 2%Z)]);
+     (mkClient 1%Z 0%Z [] [], [])] in
+  NoDup (map c_id (map fst cl)) /\ Forall one_step_client cl /\ (0 < total_examples (map fst cl))%Z.
+Proof.
+  cbv zeta. split; [repeat constructor; cbn; intuition discriminate|]. split; [|reflexivity].
+  constructor; [right; split; [reflexivity|eexists; reflexivity]|]. constructor; [left; split; reflexivity|constructor].
+Qed.
+
+Example C12_key_free_gradient_exists : forall p b (u u' : Q), (fun w batch (_ : Q) => batch_grad w batch 0) p b u = (fun w batch (_ : Q) => batch_grad w batch 0) p b u'.
+Proof. reflexivity. Qed.
+
 (* ---- the instance evaluated by the correspondence check satisfies the hypotheses ----
    its gradient is ls_grad_reg reg = batch gradient of the least-squares loss + 2*reg*w
    (fedjax.grad(per_example_loss, l2_regularizer(reg)); reg = 0: no regularizer) *)
@@ -276,6 +305,8 @@ Print Assumptions C12_source_apfl_global_is_skeleton.
 Print Assumptions C12_source_mime_is_skeleton.
 Print Assumptions C12_source_mimelite_is_skeleton.
 Print Assumptions C12_source_hypcluster_one_cluster_is_skeleton.
+Print Assumptions C12_source_inits_and_wiring.
+Print Assumptions C12_fedprox_penalty_gradient.
 Print Assumptions C12_ls_gradient_is_regularized.
 Print Assumptions C12_ls_fedprox_mu0_eq_fedavg.
 Print Assumptions C12_ls_hypcluster_eq_fedavg.
